@@ -18,6 +18,7 @@ var v5Compose = composeFns{jp.MergeMergePatches, jp.MergePatch, ""}
 
 // judgeCompose checks the composition law on (P1, P2) with several documents.
 func judgeCompose(c *core.Ctx, f composeFns, p1T, p2T string, docs []string) {
+	p1T, p2T = wsWrap(c, p1T), wsWrap(c, p2T) // (a file that starts with a blank line, an indented here-document)
 	p1, p2 := mustParse(p1T), mustParse(p2T)
 	mb, err, pn := callMerge(f.mmp, p1T, p2T)
 	c.Eval(1)
